@@ -45,6 +45,8 @@ struct Walker : dv11::Typed<int, Walker> {
 			It& it = regs[static_cast<std::size_t>(s.r)];
 			if(s.op == "inc") { ++it; }
 			else if(s.op == "dec") { --it; }
+			else if(s.op == "pinc") { it++; }
+			else if(s.op == "pdec") { it--; }
 			else if(s.op == "add") { it += s.arg; }
 			else if(s.op == "sub") { it -= s.arg; }
 			else if(s.op == "plus") { it = it + s.arg; }
